@@ -114,6 +114,9 @@ def make_paramiko_recorders(real_transport, real_rsakey, server_key_b64):
         def is_alive(self):
             return False
 
+        def close(self):            # paramiko.Transport.close(): never raises
+            pass
+
         def _auth(self, name, real, args, kwargs):
             b = _bind(real, args, kwargs)
             rec = {"call": name, "given": sorted(kwargs) + ["#%d" % i for i in range(len(args))]}
